@@ -28,28 +28,31 @@ DRIVERS = ["C13"]
 LEVEL = "proof"
 MANIFEST = {
     "category": "proof",
-    "text": ("Lean 4 theorems about an executable model of series/_temporal.py whose formulas (the eight change lambdas, their neutral "
-             "values, the five conversion helpers, the _CUMULATIVE_FACTORY table) are regenerated from the Python AST on every run, so a "
-             "changed formula re-checks the proofs: per-period formula of diff/pct/roc/adiff over any field and of diff_log/adiff_log/"
-             "apct/aroc over the reals (Mathlib Real.log/exp/rpow) for every series, every negative shift and the keyword shifts "
-             "yoy/soy/eopy/tty (reference period = the C09 calendar model), NaN-strictness, consistency of roc_from_pct, pct_from_roc, "
-             "pct_from_apct, roc_from_apct, roc_from_aroc with the change functions, and the inversion theorems: for every span (any "
-             "step), every negative shift (forward also every keyword shift) and every series that is defined (non-zero / positive where "
-             "the formula needs it) on the initial span, cum_X(X(s,k), k, initial=s, span) equals s there, forward and backward, plus the "
-             "stronger initial-condition form for unit-step spans. The hand-written control flow of the model (copy/shift/_binop, the two "
-             "cumulation loops, span resolution, error branches) is tied to the code by differential correspondence on generated series "
-             "(all six frequencies, interior/leading/trailing missing values, default/explicit/open spans, scalar and series initial "
-             "conditions, malformed shifts and mixed frequencies), exact for diff/cum_diff on dyadic data and to 1e-9 otherwise; an "
-             "independent numpy oracle on the implementation (multi-variant series included) supplies the replay. Operands with different "
-             "numbers of variants (initial with fewer variants than the change series: broadcast rule `pickVariant`, last supplied variant "
-             "repeated) are compared variant by variant and checked by a round-trip oracle; sequences of calls that reuse the same Span / "
-             "initial / change objects are checked by an oracle (arguments unchanged, result equal to a call with fresh arguments, round "
-             "trip on every call) -- object identity is outside the Lean model. Since round 4 the model also has series with several "
-             "variants on shared rows (MSer): theorems `mtrim_spec` (trim removes exactly the leading/trailing rows missing in all "
-             "variants), variant locality of change / conversion / cumulation (`m*_variant_local`), `change_cells_only` (shared rows do "
-             "not leak), the shift argument as int / float / keyword / other string (`change_float_or_unknown_string_rejected`, "
-             "`cumArg_float`), the documented default initial values, and the keyword shifts with the C09 calendar rule explicit "
-             "(`change_soy_eopy_regular`, `change_tty_explicit`, `tty_neutral_fill`); tied by the whole-series stream `multi`."),
+    "text": ("Lean 4 theorems (95, Props/C13.lean) about an executable model of series/_temporal.py whose formulas (the eight change lambdas, "
+             "their neutral values, the five conversion helpers, the _CUMULATIVE_FACTORY table incl. default initial values) are regenerated "
+             "from the Python AST on every run, so a changed formula re-checks the proofs. Proved, for every series of the model (one "
+             "variant = frequency, rows, cells; several variants = MSer on shared rows): (1) every change is the NaN-strict cell-wise "
+             "generated formula of x_t and the reference value, for every negative integer shift and the keywords yoy/soy/eopy/tty "
+             "(reference period = Period.shift of the C09 calendar model, made explicit for regular frequencies; neutral-value fill 0/1/none "
+             "in start-of-year periods under tty; a reference period before the first row reads as missing); leads, float-valued and "
+             "unknown-string shifts are rejected by the change functions, soy/eopy/tty on integer periods too; (2) the documented formulas "
+             "period by period: diff, pct, roc, adiff over any field (pct/roc under x_s != 0, missing when x_s = 0), diff_log, adiff_log, apct, "
+             "aroc over the reals (Real.log/exp/rpow; logs under positivity); (3) roc_from_pct/pct_from_roc invert each other against "
+             "pct/roc for every series and negative shift (field with 100 != 0); pct_from_apct, roc_from_apct, roc_from_aroc undo the "
+             "annualisation for every series of POSITIVE values and every frequency (factor 1,1,2,4,12,365 from the source); (4) inversion: "
+             "for every negative shift, every span of any step, forward and backward, cum_X(X(s,k),k,initial=s,span) exists and equals s where "
+             "s is defined (non-zero for pct/roc, positive for diff_log) -- on the whole stretch, or chain by chain (period t belongs to the "
+             "chain t + n*k) through series WITH missing values; forward also for keyword shifts on the initial span the code computes; "
+             "stronger initial-condition form for unit-step spans; (5) several variants: trim removes exactly the leading/trailing rows "
+             "missing in all variants, every transform is variant-local (initial broadcast by pickVariant = last supplied variant), shared "
+             "rows do not leak; (6) the rejection branches of the cumulation (leads, keyword shift backward, empty spans, mixed frequencies, "
+             "open span on an empty series). NOT proved: anything about IEEE rounding/overflow; the inversion where a value the recursion "
+             "reads is missing/zero/non-positive (the result is then missing, by correspondence only); default/open-span resolution is "
+             "modelled and tied by correspondence but the inversion theorems are stated for explicit spans. Tie: translator + differential "
+             "correspondence on generated single- and multi-variant series (exact for diff/cum_diff on dyadic data, 1e-9 otherwise); "
+             "independent numpy oracles (formulas incl. a 1e-300..1e300 magnitude axis, conversions, round trips incl. holes on other chains, "
+             "variant broadcast, reuse of argument objects, positional/keyword spellings) supply the replay; object identity and the Python "
+             "wrappers' argument passing are outside the Lean model."),
     "design": "7/C13",
     "note": ("IEEE rounding is outside the theorems (fields / reals); numpy's inf/nan results on zero divisors and non-positive logs "
              "are one 'missing' value in the model; variants are modelled one column at a time (multi-variant series: oracle only)."),
@@ -610,15 +613,23 @@ def oracle_roundtrip(ctx: Ctx, case):
     got = table_of(y)
     xs_tab = {start + i: rows[i] for i in range(len(rows))}
     lo, hi = (a, b) if direction == "forward" else (b, a)
+    holes = 0
     for t in range(lo, hi + 1):
         for j in range(nv):
+            # the chain of t: t, t+k, … down to the initial periods (forward) / t, t-k, … up to them (backward); the round trip is
+            # demanded in period t when the original has no missing value on that chain (other chains may have holes)
+            chain = range(t, a + k - 1, k) if direction == "forward" else range(t, a - k + 1, -k)
+            if any(u not in xs_tab or xs_tab[u][j] != xs_tab[u][j] for u in chain):
+                holes += 1
+                continue
             g = float(got[t][j]) if t in got else NAN
             want = xs_tab[t][j]
             if not close(g, want):
-                ctx.fail(site, case, f"period serial {t} variant {j}: round trip gives {g!r}, original value {want!r}")
+                ctx.fail(site, case, f"period serial {t} variant {j}: round trip gives {g!r}, original value {want!r}"
+                                     + (" (chain of this period has no missing value; other chains do)" if case.get("holes") else ""))
                 return
     if hi - lo >= 2:
-        ctx.nontriv(("roundtrip", kind, f, k, direction, nv, case["span"] is None))
+        ctx.nontriv(("roundtrip", kind, f, k, direction, nv, case["span"] is None, holes > 0))
 
 
 def gen_oracle_cases(ctx: Ctx, rng, count: int):
@@ -686,8 +697,16 @@ def gen_oracle_cases(ctx: Ctx, rng, count: int):
                     for i in range(n):
                         if (lo + i < b or lo + i > a - k) and rng.chance(0.3):
                             col[i] = None
+            holes = False
+            if span is not None and k <= -2 and rng.chance(0.35):
+                # interior missing values: the |k| interleaved chains are independent, a hole spoils its own chain only
+                holes = True
+                for col in cols:
+                    for _ in range(rng.randint(1, 2)):
+                        col[rng.randint(0, n - 1)] = None
             cases.append({"op": "roundtrip", "kind": kind, "freq": f, "start": start, "shift": k, "direction": direction,
-                          "span": span, "values": [list(r) for r in zip(*cols)]})
+                          "span": span, "holes": holes, "values": [list(r) for r in zip(*cols)]})
+            ctx.count("oracle_roundtrip:" + ("holes" if holes else "complete"))
     return cases
 
 
